@@ -97,6 +97,12 @@ pub enum Submit {
 	LockNext,
 	/// spends an output that does not exist
 	NoSuchInput,
+	/// valid spend whose kernel signature is garbage
+	BadSignature,
+	/// everything burned as fee (no outputs), honestly signed
+	Outputless,
+	/// no outputs and a garbage kernel signature
+	OutputlessBadSignature,
 }
 
 #[derive(Serialize, Deserialize, Clone, Debug, PartialEq)]
@@ -555,6 +561,28 @@ impl<'w> PoolSim<'w> {
 					None
 				}
 			}
+			Submit::BadSignature | Submit::Outputless | Submit::OutputlessBadSignature => {
+				if let Some(x) = free.first().cloned() {
+					let t = if *kind == Submit::BadSignature {
+						self.make_spend(&[x], 1, Self::plain_fee(1, 1), None, &mut rng)
+					} else {
+						FeeFields::new(0, x.value).ok().map(|ff| self.world.wallet.build_tx(&[x.clone()], &[], None, KernelFeatures::Plain { fee: ff }).0)
+					};
+					expect = Some(*kind == Submit::Outputless);
+					t.map(|mut t| {
+						if *kind != Submit::Outputless {
+							let mut raw = [0u8; 64];
+							raw.copy_from_slice(&rng.bytes(64));
+							if let Ok(sig) = grin_util::secp::Signature::from_raw_data(&raw) {
+								t.body.kernels[0].excess_sig = sig;
+							}
+						}
+						t
+					})
+				} else {
+					None
+				}
+			}
 			Submit::NoSuchInput => {
 				let key_id = self.world.wallet.fresh_key();
 				let value = 5_000_000_000u64;
@@ -701,7 +729,7 @@ pub fn gen_ops(rng: &mut SimRng, thorough: bool) -> Vec<Op> {
 	for _ in 0..n {
 		let k = rng.below(100);
 		let op = if k < 55 {
-			let kind = match rng.below(20) {
+			let kind = match rng.below(23) {
 				0..=6 => Submit::Valid,
 				7 | 8 => Submit::Dependent,
 				9 | 10 => Submit::Conflict,
@@ -712,7 +740,10 @@ pub fn gen_ops(rng: &mut SimRng, thorough: bool) -> Vec<Op> {
 				16 => Submit::JustMatureCoinbase,
 				17 => Submit::LockFuture,
 				18 => Submit::LockNext,
-				_ => Submit::NoSuchInput,
+				19 => Submit::NoSuchInput,
+				20 => Submit::BadSignature,
+				21 => Submit::Outputless,
+				_ => Submit::OutputlessBadSignature,
 			};
 			Op::Submit { kind, stem: rng.chance(1, 4), r: rng.next_u64() }
 		} else if k < 70 {
